@@ -20,8 +20,8 @@ PROPS = {
                 assumptions=[HEADROOM, "handles passed in were returned by a creation path of the same world (`legit`); Rust runs Drop::drop once for an unbuilt builder"]),
     'C17': dict(units=['world'], witness='alloc',
                 assumptions=[HEADROOM]),
-    'C03': dict(units=['join'], witness=None, assumptions=[HEADROOM] + STORAGE_ASSUME),
-    'C04': dict(units=['storage', 'flagged'], witness=None, assumptions=[HEADROOM] + STORAGE_ASSUME + [
+    'C03': dict(units=['join'], witness='storage', assumptions=[HEADROOM] + STORAGE_ASSUME),
+    'C04': dict(units=['storage', 'flagged'], witness='storage', assumptions=[HEADROOM] + STORAGE_ASSUME + [
                     "BOUNDED part (Kani, reported under coverage.bounded): Vec/DenseVec/DefaultVec storages against the raw-operation contract from every well-formed state within the stated small bounds; u16 components; BTreeStorage/HashMapStorage conformance is ASSUMED from std map semantics (one-line delegations through a cell); NullStorage only in the C08 harness"],
                 kani=dict(files=['storages_harness.rs'], quick=['dense_step_small', 'dense_clean'], thorough=['dense_step', 'vec_step', 'default_vec_step'], timeout=3000)),
     'C08': dict(units=['storage'], witness=None, level='other',
@@ -33,13 +33,13 @@ PROPS = {
                              "the mask handed to clean() is the true mask: that MaskedStorage keeps it true is the Verus-proved layer invariant (C04)",
                              "outside: DefaultVecStorage/BTree/HashMap kinds in the ledger harness, the lazy queue (SegQueue), world teardown order, ChangeSet, panicking destructors (C19 n/a)"],
                 kani=dict(files=['ownership_harness.rs', 'storages_harness.rs'], quick=['own_vec', 'own_dense', 'own_null', 'dense_clean'], thorough=['own_drain'], timeout=3000)),
-    'C12': dict(units=['flagged', 'flagged_ec', 'storage'], witness=None,
+    'C12': dict(units=['flagged', 'flagged_ec', 'storage'], witness='storage',
                 assumptions=STORAGE_ASSUME + ["shrev::EventChannel::single_write appends one event and a reader registered earlier receives appended events in order (assumed contract on shrev)",
                                               "FlaggedStorage::shared_get_mut (raw pointer into the channel, used only by parallel joins) is excluded",
                                               "bulk clear() emits nothing by design (stated in the property)",
                                               "both cfg variants of the storage-event-control feature are extracted and verified (units flagged / flagged_ec)"]),
-    'C13': dict(units=['storage'], witness=None, assumptions=[HEADROOM] + STORAGE_ASSUME + ["parallel / SharedGetOnly variants are not covered (N3)", "join-membership of restricted storages is part of C06's join unit"]),
-    'C06': dict(units=['join'], witness=None,
+    'C13': dict(units=['storage'], witness='storage', assumptions=[HEADROOM] + STORAGE_ASSUME + ["parallel / SharedGetOnly variants are not covered (N3)", "join-membership of restricted storages is part of C06's join unit"]),
+    'C06': dict(units=['join'], witness='storage',
                 assumptions=[HEADROOM] + STORAGE_ASSUME + [
                     "REDUCED: hibitset's bit-set family (BitSetLike::iter ascending and duplicate-free, BitSetAnd/Not/All/Or views, layered skip logic) is an assumed contract: the 'indices straddling layer boundaries' part of the quantifier lives entirely in that dependency",
                     "REDUCED: tuple members (define_open!) and BitAnd for arities > 1 (bitset_and!) and the bit-set members (define_bit_join!) are macro-generated and not under contract; the one-member BitAnd and every non-macro member are",
